@@ -120,6 +120,13 @@ fn sweep_table<EF: Field>(name: &'static str, d: usize, id: NpoTypeId, verdict: 
 
 /// KoalaBear D4 extension challenger, recompose table on.
 pub fn sweep_ext(first: usize, name: &'static str) -> Result<Swept, String> {
+    ext_inner(first, name, false).map(|r| r.0.expect("swept"))
+}
+/// C18: digest line of everything a prover and a verifier derive independently from the program (no proving).
+pub fn digest_ext(first: usize, name: &'static str) -> Result<String, String> {
+    ext_inner(first, name, true).map(|r| r.1)
+}
+fn ext_inner(first: usize, name: &'static str, digest_only: bool) -> Result<(Option<Swept>, String), String> {
     let mut b = CircuitBuilder::<E4>::new();
     b.enable_poseidon2_perm::<KoalaBearD4Width16, _>(generate_poseidon2_trace::<E4, KoalaBearD4Width16>, default_koalabear_poseidon2_16());
     b.enable_recompose::<KB>(generate_recompose_trace::<KB, E4>);
@@ -155,6 +162,10 @@ pub fn sweep_ext(first: usize, name: &'static str) -> Result<Swept, String> {
     let (ad, pc, npc) = get_airs_and_degrees_with_prep::<KoalaBearConfig, _, 4>(&circuit, &packing, &npo_prep, &air_builders, ConstraintProfile::Standard).map_err(|e| format!("{e:?}"))?;
     let (airs, degs): (Vec<_>, Vec<usize>) = ad.into_iter().unzip();
     let pd = ProverData::from_airs_and_degrees(&config::koala_bear(), &airs, &degs);
+    let line = crate::npodigest::line(name, &circuit, &pc, &npc, &airs, &degs, &pd);
+    if digest_only {
+        return Ok((None, line));
+    }
     let mut prover = BatchStarkProver::new(config::koala_bear()).with_table_packing(packing);
     prover.register_poseidon2_table::<4>(Poseidon2Config::KOALA_BEAR_D4_W16);
     prover.register_recompose_table::<4>(false);
@@ -163,11 +174,17 @@ pub fn sweep_ext(first: usize, name: &'static str) -> Result<Swept, String> {
     runner.set_public_inputs(&samples_v).map_err(|e| format!("public inputs: {e:?}"))?;
     let honest = runner.run().map_err(|e| format!("run: {e:?}"))?;
     let j = judge!(prover, cpd, E4);
-    sweep_table::<E4>(name, 4, NpoTypeId::poseidon2_perm(Poseidon2Config::KOALA_BEAR_D4_W16), &j, &honest)
+    sweep_table::<E4>(name, 4, NpoTypeId::poseidon2_perm(Poseidon2Config::KOALA_BEAR_D4_W16), &j, &honest).map(|s| (Some(s), line))
 }
 
 /// KoalaBear base-field challenger rows (D1) in a quintic circuit.
 pub fn sweep_base(first: usize, name: &'static str) -> Result<Swept, String> {
+    base_inner(first, name, false).map(|r| r.0.expect("swept"))
+}
+pub fn digest_base(first: usize, name: &'static str) -> Result<String, String> {
+    base_inner(first, name, true).map(|r| r.1)
+}
+fn base_inner(first: usize, name: &'static str, digest_only: bool) -> Result<(Option<Swept>, String), String> {
     let lift = |v: KB| E5::new([v, KB::ZERO, KB::ZERO, KB::ZERO, KB::ZERO]);
     let mut b = CircuitBuilder::<E5>::new();
     b.enable_poseidon2_perm_base::<KoalaBearD1Width16, _>(generate_poseidon2_trace::<E5, KoalaBearD1Width16>, LiftedPerm(default_koalabear_poseidon2_16()));
@@ -203,6 +220,10 @@ pub fn sweep_base(first: usize, name: &'static str) -> Result<Swept, String> {
     let (ad, pc, npc) = get_airs_and_degrees_with_prep::<KoalaBearConfig, _, 5>(&circuit, &TablePacking::default(), &npo_prep, &air_builders, ConstraintProfile::Standard).map_err(|e| format!("airs: {e:?}"))?;
     let (airs, degs): (Vec<_>, Vec<usize>) = ad.into_iter().unzip();
     let pd = ProverData::from_airs_and_degrees(&cfg, &airs, &degs);
+    let line = crate::npodigest::line(name, &circuit, &pc, &npc, &airs, &degs, &pd);
+    if digest_only {
+        return Ok((None, line));
+    }
     let cpd = CircuitProverData::new(pd, pc, npc);
     let mut prover = BatchStarkProver::new(cfg);
     for p in poseidon2_table_provers_d5(Poseidon2Config::KOALA_BEAR_D1_W16) {
@@ -212,5 +233,5 @@ pub fn sweep_base(first: usize, name: &'static str) -> Result<Swept, String> {
     runner.set_public_inputs(&samples_v).map_err(|e| format!("public inputs: {e:?}"))?;
     let honest = runner.run().map_err(|e| format!("run: {e:?}"))?;
     let j = judge!(prover, cpd, E5);
-    sweep_table::<E5>(name, 1, NpoTypeId::poseidon2_perm(Poseidon2Config::KOALA_BEAR_D1_W16), &j, &honest)
+    sweep_table::<E5>(name, 1, NpoTypeId::poseidon2_perm(Poseidon2Config::KOALA_BEAR_D1_W16), &j, &honest).map(|s| (Some(s), line))
 }
